@@ -556,6 +556,10 @@ func runStress(run *ev.Run, sc stressCase, filter string) {
 			if frames, spin := vegetaSpinning(3 * time.Second); spin && callsBefore == tg.calls.Load() && entriesBefore == rt.entries.Load() {
 				viol("C02", "not-closed-after-end", "stress-workers-spinning", "the attack does not end: over 3 s no hit was started and no request reached the transport, yet the same workers keep running inside vegeta; none of them parks or finishes", map[string]any{"goroutines": tail(frames, 3000)})
 				atk.Stop()
+				if isChildProcess { // the spinning workers would burn processors under every later case (DESIGN 10.26)
+					fmt.Println(run.BlobLine())
+					os.Exit(0)
+				}
 				return
 			}
 		}
